@@ -242,6 +242,14 @@ func (c *Ctx) writeEvidence(nviol int) {
 		cov[k] = v
 	}
 	cov["distinct_nontrivial"] = len(c.distinct)
+	if len(c.distinct) <= 200 {
+		var keys []string
+		for k := range c.distinct {
+			keys = append(keys, k)
+		}
+		sort.Strings(keys)
+		cov["distinct_keys"] = keys
+	}
 	if _, ok := cov["exhaustive"]; !ok {
 		cov["exhaustive"] = !c.capped
 	} else if c.capped {
